@@ -34,6 +34,17 @@ def fresh_lib_curve(mc, register=False, legacy_generator=False):
     return c
 
 
+def alias_lib_curve(mc):
+    """An equal-but-distinct library Curve for `mc`: same field, equation,
+    base point and order in objects of its own, under another name and OID.
+    Whether the library treats it as "the same curve" is its business; it
+    must not be confused with, or written into, keys of the original."""
+    from ecdsa import curves as lc
+    c = fresh_lib_curve(mc)
+    return lc.Curve(mc.name + "_alias", c.curve, c.generator,
+                    tuple(mc.oid) + (7,), None)
+
+
 def global_lib_curve(mc):
     """The library's own process-global Curve object of a named curve."""
     from ecdsa import curves as lc
